@@ -313,6 +313,7 @@ func runC17(c *core.Case) *core.Result {
 					grown[numToName[dd.CollectionNum]+"/"+dd.Key] = dd.DUID
 				}
 			}
+			b.AwaitPubs(pubsBefore+len(grown), 3*time.Second) // an announcement that is due may come from a goroutine the hooks do not see
 			announced := map[string]bool{}
 			for _, pb := range b.MQ.Pubs()[pubsBefore:] {
 				var n model.Notification
